@@ -216,6 +216,11 @@ func (p *FaultPlan) snap(w *World, kind string, arg int, class, path string, off
 		}
 		copy(nd[off:end], data[:arg])
 		over[ino] = nd
+		if arg < 42 {
+			w.Stats.Probes["torn-inside-record-header"]++
+		} else {
+			w.Stats.Probes["torn-inside-record-payload"]++
+		}
 		img = cloneCrash(w.Disk.Root, over)
 	case "powerloss":
 		// arg: 0 = lose everything unsynced, 1 = keep everything, >=2 seeded
